@@ -695,7 +695,7 @@ def mon_c02_hidden(sc, obs):
                 x = hidden.get((i, g))
                 if x is None:
                     continue
-                tol = F(0) if not (lib._inexact([l.numerator, l.denominator]) or lib._inexact([u.numerator, u.denominator])) else F(1, 2 ** 18)
+                tol = F(0) if (l.denominator <= 1024 and u.denominator <= 1024) else F(1, 2 ** 18)
                 if not (l - tol <= x <= u + tol):
                     return (f"after op #{st['n']} {st['op']}: bounds of object {i} grounding {g} contain the ground interpretation's value {x} (the ground theory has this model)", f"({l}, {u})", None)
     return None
